@@ -7,6 +7,10 @@ CHECKS = {
    "differential testing of generated table programs (operators x types x operand shapes x boundary grid / rapid-drawn operands and nested expressions; 8-bit pairs exhaustive) against the reference Go toolchain",
    "trusts the native Go toolchain as reference and Node as the JavaScript engine; int/uint/uintptr are compared as 32-bit through type aliases",
    "property-based differential testing (rapid-generated operand tables and expressions, exhaustive 8-bit enumeration) with native Go as oracle"),
+ "C20": ("fault_enumeration",
+   "rapid state machine over Store/Load/Clear against an in-memory model of the cache (configuration pairs differing in one field, timestamps around equality, tested-package rule), every truncation point plus random bit flips/overwrites of stored files, SIGKILL injected with strace at every file-system call of Store, gob round trip of parsed Go files and end-to-end JavaScript equality for cache-restored packages",
+   "trusts os.UserCacheDir/XDG_CACHE_HOME redirection, strace signal injection as a stand-in for a crash, and the exported compiler pipeline for the end-to-end comparison; power loss is out of scope",
+   "model-based stateful property testing (rapid) + exhaustive truncation/crash-point enumeration with a miss-or-intact oracle"),
 }
 PENDING_REASON = "check not built yet in this session (work in progress; see DESIGN.md §8 for the order)"
 props=[json.loads(l)['id'] for l in open('/verif/properties.jsonl')]
